@@ -320,6 +320,17 @@ namespace sim
       }
       if( remaining == 0 ) {
          ++W.reads_after_eof;
+         // bounded progress: a require() that keeps polling the reader after it reported end of input never returns.
+         // Two reader calls at end of input with no other event in between belong to the same require() call.
+         if( !W.h.empty() && W.h.back().kind == Ev::READ && static_cast< std::uint32_t >( W.h.back().x ) == 0 ) {
+            if( ++W.eof_polls > 1000 ) {
+               std::fputs( "pegsim: the input keeps calling its reader after end of input (no progress)\n", stderr );
+               std::abort();
+            }
+         }
+         else {
+            W.eof_polls = 0;
+         }
       }
       if( n > 0 ) {
          SIM_UNPOISON( buffer, n );
